@@ -226,8 +226,9 @@ fn weight(b: &BodyCtx, p: &Params) -> u64 {
 #[derive(Default)]
 struct Local {
     evaluations: u64,
-    nontrivial: HashSet<u64>,
+    nontrivial: IdSet,
     nontrivial_evals: u64,
+    sampled_violation: bool,
     violations: BTreeMap<(String, String), Violation>,
     violating: u64,
     per_set: BTreeMap<&'static str, u64>,
@@ -239,46 +240,102 @@ struct Local {
     outcome_kinds: BTreeMap<String, u64>,
 }
 
+/// incremental FNV-1a over small integers (no allocation: this runs once per execution)
+struct H(u64);
+impl H {
+    fn new() -> Self {
+        H(0xcbf29ce484222325)
+    }
+    fn u(&mut self, x: u64) {
+        for b in x.to_le_bytes() {
+            self.0 ^= b as u64;
+            self.0 = self.0.wrapping_mul(0x100000001b3);
+        }
+    }
+    fn s(&mut self, x: &str) {
+        for b in x.bytes() {
+            self.0 ^= b as u64;
+            self.0 = self.0.wrapping_mul(0x100000001b3);
+        }
+        self.u(0xff);
+    }
+}
+
+#[derive(Default, Clone, Copy)]
+pub struct IdHasher(u64);
+impl std::hash::Hasher for IdHasher {
+    fn finish(&self) -> u64 {
+        self.0
+    }
+    fn write(&mut self, bytes: &[u8]) {
+        for &b in bytes {
+            self.0 = (self.0 << 8) | b as u64;
+        }
+    }
+    fn write_u64(&mut self, x: u64) {
+        self.0 = x;
+    }
+}
+type IdSet = HashSet<u64, std::hash::BuildHasherDefault<IdHasher>>;
+
 fn class_of(b: &BodyCtx, t: &TruncCtx, p: &Params, obs: &Observation) -> (u64, bool) {
     // canonical class: body family + where each cut / the truncation fell relative to the
-    // structure (region kind, content id and Content-Length flag of the part it belongs to,
-    // offset inside the region) + delivery mode + consumer + limit + outcome shape
-    let mut s = String::new();
+    // structure (region kind, part index, offset inside the region, content id and
+    // Content-Length flag of the field around it) + delivery mode + consumer + limit + outcome
+    let mut h = H::new();
     let mut nontrivial = false;
     if let (Some(spec), Some(g)) = (&b.spec, &b.gen) {
-        s.push_str(&format!("{:?}/{}/{}|", spec.flavour, spec.boundary, spec.fields.len()));
-        let mut mark = |off: usize, tag: &str, s: &mut String| {
+        h.u(spec.flavour as u64);
+        h.u(spec.boundary as u64);
+        h.u(spec.fields.len() as u64);
+        let mut mark = |off: usize, tag: u64, h: &mut H| {
             let (k, part, rel, inside) = g.region_of_cut(off);
             // the field whose bytes surround the position: for a delimiter the part it ends
             let f = match k {
                 gen::RegionKind::Delimiter => part.checked_sub(1).and_then(|q| spec.fields.get(q)),
                 _ => spec.fields.get(part),
             };
-            s.push_str(&format!("{tag}{k:?}.{part}.{rel}.{inside}.{:?};", f.map(|f| (f.content, f.cl))));
+            h.u(tag);
+            h.u(k as u64);
+            h.u(part as u64);
+            h.u(rel as u64);
+            h.u(inside as u64);
+            h.u(f.map(|f| 1 + f.content as u64 * 2 + f.cl as u64).unwrap_or(0));
             if inside && matches!(k, gen::RegionKind::Delimiter | gen::RegionKind::Headers | gen::RegionKind::Preamble) {
                 nontrivial = true;
             }
         };
         for &c in &p.cuts {
-            mark(c, "c", &mut s);
+            mark(c, 1, &mut h);
         }
         if p.trunc.is_some() {
-            mark(t.len, "t", &mut s);
+            mark(t.len, 2, &mut h);
         }
         if p.cuts.is_empty() && p.trunc.is_none() {
             // whole / all-1-byte deliveries of complete bodies: the body itself is the case
             for f in &spec.fields {
-                s.push_str(&format!("{}{},", f.content, if f.cl { "L" } else { "" }));
+                h.u(1 + f.content as u64 * 2 + f.cl as u64);
             }
         }
     } else {
-        s.push_str(&hex(&b.bytes));
-        s.push_str(&format!("{:?}{:?}", p.cuts, p.trunc));
+        h.s(&hex(&b.bytes));
+        for &c in &p.cuts {
+            h.u(c as u64);
+        }
+        h.u(p.trunc.map(|x| x as u64 + 1).unwrap_or(0));
     }
-    let pend = if p.pend_all { "all" } else if p.pend_mask == 0 { "none" } else { "some" };
-    s.push_str(&format!("|{}{}{:?}{:?}{:?}|", p.all1 as u8, pend, p.end, p.prog, p.limit));
-    s.push_str(&oracle::outcome_shape(obs));
-    (mc_core::fnv_str(&s), nontrivial)
+    h.u(p.all1 as u64);
+    h.u(if p.pend_all { 2 } else if p.pend_mask == 0 { 0 } else { 1 });
+    h.u(p.end as u64);
+    match p.prog {
+        Prog::ReadAll => h.u(0),
+        Prog::Drop { k, after } => h.u(1 + k as u64 * 8 + after as u64),
+        Prog::Stall { k, after } => h.u(100 + k as u64 * 8 + after as u64),
+        Prog::Park { k, after } => h.u(200 + k as u64 * 8 + after as u64),
+    }
+    h.u(p.limit.value() as u64 + matches!(p.limit, Limit::New) as u64);
+    h.u(oracle::outcome_hash(obs));
+    (h.0, nontrivial)
 }
 
 pub struct Unit {
@@ -371,7 +428,7 @@ fn main() {
 
     let mut rep = Reporter::new("C15");
     let mut evaluations = 0u64;
-    let mut nontrivial = HashSet::new();
+    let mut nontrivial: IdSet = IdSet::default();
     let mut nontrivial_evals = 0u64;
     let mut per_set: BTreeMap<&'static str, u64> = BTreeMap::new();
     let mut samples = Vec::new();
@@ -388,8 +445,8 @@ fn main() {
         for (k, v) in l.per_set {
             *per_set.entry(k).or_default() += v;
         }
-        for s in l.samples {
-            if samples.len() < 8 {
+        for (i, s) in l.samples.into_iter().enumerate() {
+            if samples.len() < 10 && i < 2 {
                 samples.push(s);
             }
         }
@@ -514,7 +571,14 @@ fn run_unit(u: &Unit, loc: &mut Local) -> Result<(), String> {
                 return;
             }
         }
-        if first && loc.samples.len() < 2 && (nt || loc.evaluations % 7 == 1) {
+        // a few written-out cases per worker: non-trivial ones at fixed ordinal positions, and the
+        // first rejected one
+        let take = (nt && matches!(loc.nontrivial_evals, 1 | 5_000 | 100_000) && loc.samples.len() < 3)
+            || (verdict.is_err() && !loc.sampled_violation);
+        if verdict.is_err() {
+            loc.sampled_violation = true;
+        }
+        if take {
             loc.samples.push(json!({
                 "set": u.set,
                 "body": mc_core::show_short(&b.bytes, 400),
@@ -522,6 +586,7 @@ fn run_unit(u: &Unit, loc: &mut Local) -> Result<(), String> {
                 "reference": format!("{:?} with {} field(s)", t.strict().status, t.strict().fields.len()),
                 "observed": oracle::summarize(&obs.events),
                 "final": format!("{:?}", obs.fin),
+                "verdict": match &verdict { Ok(()) => "accepted".to_string(), Err(f) => format!("rejected: clause {} {}", f.clause, f.signature) },
             }));
         }
         first = false;
